@@ -72,6 +72,14 @@ impl RlteIndex {
             out.push(sorted_desc[r - 1].clone());
             r <<= 1;
         }
+        // Always keep the smallest value: the planner reads the ladder's first and last entries as the
+        // zone's (max, min) envelope, so a zone whose row count is not a power of two must still expose its
+        // true minimum or it is pruned for ascending order and for `<` / `<=` bounds.
+        if (r >> 1) != sorted_desc.len() {
+            if let Some(last) = sorted_desc.last() {
+                out.push(last.clone());
+            }
+        }
         out
     }
 
